@@ -33,28 +33,29 @@ Section Loc.
     end.
 
   (** the loop over a well-formed prefix [ds] followed by [c] reaches the boundary before [c] *)
-  Lemma parse_loop_prefix : forall c ds f defs line off st,
-    Forall wf_sdef ds -> rest_top F c -> (length (print ds) + length c + 4 <= F)%nat ->
+  Lemma parse_loop_prefix : forall c ds f defs ctx line off st,
+    ctx_agrees ctx defs -> wf_defs ctx ds -> rest_top F c -> (length (print ds) + length c + 4 <= F)%nat ->
     Ready il id F line off (print ds ++ c) st -> (length ds <= f)%nat ->
-    exists st', the_loop f defs st = the_loop (f - length ds) (defs ++ elab_from line off ds) st'
+    exists st', the_loop f defs st = the_loop (f - length ds) (defs ++ elab_from ctx line off ds) st'
                 /\ Ready il id F (line + lines_of ds) (off + blen (print ds)) c st'.
   Proof.
-    intros c. induction ds as [|d ds IH]; intros f defs line off st Hw Hc HF HR Hf.
+    intros c. induction ds as [|d ds IH]; intros f defs ctx line off st Hag Hw Hc HF HR Hf.
     - exists st. cbn [print elab_from length app lines_of] in *. rewrite app_nil_r, Nat.sub_0_r, blen_nil, !Z.add_0_r.
       split; [reflexivity|exact HR].
-    - inversion Hw as [|? ? Hd Hw']; subst. cbn [print length] in *. rewrite <- app_assoc in HR.
+    - destruct Hw as (Hd & Hw'). cbn [print length] in *. rewrite <- app_assoc in HR.
       rewrite app_length in HF. destruct f as [|f]; [lia|].
       assert (Hok : rest_top F (print ds ++ c)).
-      { destruct ds as [|d' ds']; [exact Hc|]. inversion Hw' as [|? ? Hd' _]; subst. right. cbn [print].
+      { destruct ds as [|d' ds']; [exact Hc|]. destruct Hw' as ((Hd' & _) & _). right. cbn [print].
         rewrite <- app_assoc.
         destruct (print_def_head d' (print ds' ++ c) Hd') as (kw & ch & r & E & Hk & Hch & Hnc & Hl & Hns).
         exists kw, ch, r. split; [exact E|]. split; [exact Hk|]. split; [exact Hch|]. split; [exact Hnc|].
         split; [|exact Hns]. cbn [print] in HF. rewrite app_length in HF. lia. }
-      destruct (step_def il id F d (print ds ++ c) defs line off Hd Hok) with (st := st)
+      destruct (step_def il id F d (print ds ++ c) defs ctx line off Hag Hd Hok) with (st := st)
         as (kw & st1 & st2 & Ep & Ek & Ed & HR2); [rewrite app_length; lia|exact HR|].
       cbn [parse_loop_with]. rewrite Ep. cbn [t_typ kwtok]. change (TIdent =? EOF) with false. cbv iota.
       unfold bind. rewrite Ek, Ed. cbn [elab_from].
-      destruct (IH f (defs ++ [elab_def line off d]) (line + def_lines d) (off + blen (print_def d)) st2 Hw' Hc ltac:(lia) HR2 ltac:(lia))
+      destruct (IH f (defs ++ [elab_def_ctx ctx line off d]) (ctx_step ctx d) (line + def_lines d) (off + blen (print_def d)) st2
+                  (ctx_agrees_step il id F ctx defs line off d Hag) Hw' Hc ltac:(lia) HR2 ltac:(lia))
         as (st' & E & HR').
       exists st'. split.
       + rewrite E. cbn [Nat.sub]. rewrite <- app_assoc. reflexivity.
@@ -84,7 +85,7 @@ Proof.
 Qed.
 
 Theorem error_local_partial : forall il id ds1 c pos k defs,
-  Forall wf_sdef ds1 -> Forall byte c ->
+  wf_file ds1 -> Forall byte c ->
   (c = [] \/ exists kw ch r, c = kw ++ ch :: r /\ is_ident kw /\ ascii ch /\ idc ch = false
                             /\ bytes_eqb kw kw_signal = false) ->
   parse_bytes il id (print ds1 ++ c) = Err pos k defs ->
@@ -93,12 +94,12 @@ Proof.
   intros il id ds1 c pos k defs Hw Hbc Hc H. unfold parse_bytes, parse in H.
   set (F := fuel_for (print ds1 ++ c)) in *.
   assert (HFlen : F = (length (print ds1) + length c + 4)%nat) by (unfold F, fuel_for; rewrite app_length; reflexivity).
-  pose proof (length_print_ge ds1 Hw) as Hge.
+  pose proof (length_print_ge ds1) as Hge.
   assert (Hok : rest_top F c).
   { destruct Hc as [->|(kw & ch & r & -> & Hk & Hch & Hnc & Hns)]; [left; reflexivity|right].
     exists kw, ch, r. split; [reflexivity|]. split; [exact Hk|]. split; [exact Hch|]. split; [exact Hnc|].
     split; [|exact Hns]. rewrite app_length in HFlen. cbn [length] in HFlen. lia. }
-  destruct (parse_loop_prefix il id F c ds1 F [] 1 0 (p_init (print ds1 ++ c)) Hw Hok ltac:(lia)) as (st' & E & HR);
+  destruct (parse_loop_prefix il id F c ds1 F [] [] 1 0 (p_init (print ds1 ++ c)) (fun n => eq_refl) Hw Hok ltac:(lia)) as (st' & E & HR);
     [apply ready_init; lia|lia|].
   rewrite E in H. cbn [app] in H. fold (elaborate ds1) in H. rewrite Z.add_0_l in HR.
   destruct HR as (HR1 & HR2).
